@@ -877,3 +877,205 @@ Proof. intros (Ho & _). apply one_pending_per_service_key. right. rewrite Ho. di
 (* the request address is a function of the service key alone, and distinct service keys have distinct addresses *)
 Lemma request_address_injective s1 s2 : KPpRequest s1 = KPpRequest s2 -> s1 = s2.
 Proof. intros H. injection H. auto. Qed.
+
+Lemma nthk_eq ms ms' i : ms = ms' -> nthk ms i = nthk ms' i.
+Proof. intros ->. reflexivity. Qed.
+Ltac nthk_norm Hms := rewrite !(nthk_eq _ _ _ Hms); rewrite ?nthk_0, ?nthk_1, ?nthk_2, ?nthk_3.
+
+(* ------------------------------------------------------------------------------------------------------------- *)
+(* 7. exact functional specifications with frame (C17)                                                             *)
+(* ------------------------------------------------------------------------------------------------------------- *)
+Definition lam_request (c : pp_config) : N := sat_add two64 (pc_deposit c) (rent LEN_ACCESS_REQ).
+
+(* RequestAccess.  The request account ends up with max(current, rent + deposit) lamports, owned by the program, of the
+   AccessRequest size, remembering service key, payer and the fee in force; the payer (account 1) loses exactly the
+   shortfall; every other account is untouched. *)
+Lemma pp_request_access_spec cx W mode W' :
+  pp_request_access cx W mode = Ok W' ->
+  let svc := access_mode_service mode in
+  let rk := KPpRequest svc in
+  let payer := nthk (cx_metas cx) 1 in
+  exists c, is_pp_config W (nthk (cx_metas cx) 0) c /\
+    let short := lam_request c - lamports (get W rk) in
+    short <= lamports (get W payer) /\ (short <> 0 -> payer <> rk /\ is_signer (cx_metas cx) payer = true) /\
+    now W' = now W /\
+    forall k, get W' k =
+      if key_eqb k rk then
+        {| lamports := N.max (lamports (get W rk)) (lam_request c); owner := KPassport; alen := LEN_ACCESS_REQ;
+           data := DAccessReq {| ar_service := svc; ar_beneficiary := payer; ar_fee := pc_fee c; ar_mode := mode |} |}
+      else if key_eqb k payer then get W k <| lamports := lamports (get W k) - short |>
+      else get W k.
+Proof.
+  intros H. apply pp_request_access_ok in H. cbn zeta in *.
+  destruct H as (m0 & m1 & m2 & rest & c & Hms & _ & _ & Ho & Hd & _ & _ & _ & _ & _ & _ & _ & _ & _ & Hle & Hsig & Hnow & Hpt).
+  nthk_norm Hms. exists c. unfold is_pp_config, lam_request, shortfall in *. split; [auto|].
+  remember (KPpRequest (access_mode_service mode)) as rk eqn:Erk.
+  remember (sat_add two64 (pc_deposit c) (rent LEN_ACCESS_REQ)) as lam eqn:Elam.
+  split; [assumption|]. split; [intros Hs; destruct (Hsig Hs) as (? & ? & ?); auto|]. split; [assumption|].
+  intros k. destruct (Hpt k) as (Hx & Hy). case_key k rk.
+  - destruct Hx as (Hx1 & Hx2 & Hx3). apply acct_ext; [|repeat split; assumption]. cbn [lamports]. rewrite Hy.
+    case_key rk (mkey m1).
+    + assert (lam - lamports (get W (mkey m1)) = 0)
+        by (destruct (N.eq_dec (lam - lamports (get W (mkey m1))) 0) as [|Hs]; [assumption|destruct (Hsig Hs) as (_ & _ & Hc); congruence]).
+      lia.
+    + lia.
+  - case_key k (mkey m1).
+    + apply acct_ext; [rewrite set_lamports_lam, Hy; lia|]. eapply same_meta_trans; [exact Hx|]. destruct (get W (mkey m1)); repeat split.
+    + apply acct_ext; [rewrite Hy; lia|assumption].
+Qed.
+
+(* GrantAccess.  Request account (2) zeroed, sentinel (1) + remembered fee, remembered beneficiary (3) + (balance - fee),
+   additively, so every aliasing between the three is covered; every other account, and all owners / data, untouched. *)
+Lemma pp_grant_access_spec cx W W' :
+  pp_grant_access cx W = Ok W' ->
+  let rk := nthk (cx_metas cx) 2 in
+  exists c r, is_pp_config W (nthk (cx_metas cx) 0) c /\ is_pp_request W rk r /\
+    nthk (cx_metas cx) 1 = pc_sentinel c /\ nthk (cx_metas cx) 3 = ar_beneficiary r /\
+    let bal := lamports (get W rk) in
+    now W' = now W /\
+    forall k, get W' k = get W k <| lamports :=
+        (if key_eqb k rk then 0 else lamports (get W k)) + (if key_eqb k (pc_sentinel c) then ar_fee r else 0)
+        + (if key_eqb k (ar_beneficiary r) then bal - ar_fee r else 0) |>.
+Proof.
+  intros H. apply pp_grant_access_ok in H. cbn zeta in *.
+  destruct H as (m0 & m1 & m2 & m3 & rest & c & r & Hms & Ho & Hd & _ & Hk & _ & Hor & Hdr & Hb & _ & _ & _ & Hnow & Hpt).
+  nthk_norm Hms. exists c, r. unfold is_pp_config, is_pp_request. cbn zeta.
+  repeat (split; [solve [auto]|]). intros k. destruct (Hpt k) as (Hx & Hy). rewrite <- Hk, <- Hb.
+  apply acct_ext; [rewrite set_lamports_lam; exact Hy|]. eapply same_meta_trans; [exact Hx|]. destruct (get W k); repeat split.
+Qed.
+
+(* DenyAccess.  Request account zeroed, sentinel + the entire balance. *)
+Lemma pp_deny_access_spec cx W W' :
+  pp_deny_access cx W = Ok W' ->
+  let rk := nthk (cx_metas cx) 2 in
+  exists c r, is_pp_config W (nthk (cx_metas cx) 0) c /\ is_pp_request W rk r /\ nthk (cx_metas cx) 1 = pc_sentinel c /\
+    now W' = now W /\
+    forall k, get W' k = get W k <| lamports :=
+        (if key_eqb k rk then 0 else lamports (get W k)) + (if key_eqb k (pc_sentinel c) then lamports (get W rk) else 0) |>.
+Proof.
+  intros H. apply pp_deny_access_ok in H. cbn zeta in *.
+  destruct H as (m0 & m1 & m2 & rest & c & r & Hms & Ho & Hd & _ & Hk & _ & Hor & Hdr & _ & Hnow & Hpt).
+  nthk_norm Hms. exists c, r. unfold is_pp_config, is_pp_request. cbn zeta.
+  repeat (split; [solve [auto]|]). intros k. destruct (Hpt k) as (Hx & Hy). rewrite <- Hk.
+  apply acct_ext; [rewrite set_lamports_lam; exact Hy|]. eapply same_meta_trans; [exact Hx|]. destruct (get W k); repeat split.
+Qed.
+
+(* readable consequences for the non-aliased and the aliased cases *)
+Lemma pp_grant_access_amounts cx W W' :
+  pp_grant_access cx W = Ok W' ->
+  exists c r, is_pp_config W (nthk (cx_metas cx) 0) c /\ is_pp_request W (nthk (cx_metas cx) 2) r /\
+    let rk := nthk (cx_metas cx) 2 in let s := pc_sentinel c in let b := ar_beneficiary r in
+    let bal := lamports (get W rk) in let fee := ar_fee r in
+    (s <> rk -> b <> rk -> lamports (get W' rk) = 0) /\
+    (s <> rk -> s <> b -> lamports (get W' s) = lamports (get W s) + fee) /\
+    (b <> rk -> s <> b -> lamports (get W' b) = lamports (get W b) + (bal - fee)) /\
+    (s <> rk -> s = b -> lamports (get W' s) = lamports (get W s) + fee + (bal - fee)) /\
+    (forall k, k <> rk -> k <> s -> k <> b -> get W' k = get W k) /\
+    (forall k, owner (get W' k) = owner (get W k) /\ alen (get W' k) = alen (get W k) /\ data (get W' k) = data (get W k)).
+Proof.
+  intros H. apply pp_grant_access_spec in H. cbn zeta in *. destruct H as (c & r & Hc & Hr & _ & _ & _ & Hpt).
+  exists c, r. split; [assumption|]. split; [assumption|].
+  remember (nthk (cx_metas cx) 2) as rk. remember (pc_sentinel c) as s. remember (ar_beneficiary r) as b.
+  assert (Hl : forall k, lamports (get W' k) = (if key_eqb k rk then 0 else lamports (get W k)) + (if key_eqb k s then ar_fee r else 0)
+               + (if key_eqb k b then lamports (get W rk) - ar_fee r else 0)) by (intros k; rewrite Hpt; apply set_lamports_lam).
+  split. { intros H1 H2. rewrite Hl, key_eqb_refl, (key_eqb_neq rk s), (key_eqb_neq rk b) by congruence. lia. }
+  split. { intros H1 H2. rewrite Hl, key_eqb_refl, (key_eqb_neq s rk), (key_eqb_neq s b) by congruence. lia. }
+  split. { intros H1 H2. rewrite Hl, key_eqb_refl, (key_eqb_neq b rk), (key_eqb_neq b s) by congruence. lia. }
+  split. { intros H1 H2. rewrite Hl, <- H2, key_eqb_refl, (key_eqb_neq s rk) by congruence. lia. }
+  split. { intros k H1 H2 H3. rewrite Hpt, !key_eqb_neq by assumption. apply acct_ext; [rewrite set_lamports_lam; lia|apply set_lamports_meta]. }
+  intros k. rewrite Hpt. destruct (get W k); auto.
+Qed.
+
+(* ------------------------------------------------------------------------------------------------------------- *)
+(* 8. conservation of lamports over any duplicate-free key set containing the accounts involved                    *)
+(* ------------------------------------------------------------------------------------------------------------- *)
+Definition total (W : world) (ks : list key) : N := sumN (map (fun k => lamports (get W k)) ks).
+
+Lemma sum_ind_notin ks a x : ~ In a ks -> sumN (map (fun k => if key_eqb k a then x else 0) ks) = 0.
+Proof. induction ks as [|k tl IH]; cbn [map sumN]; intros H; [reflexivity|].
+  rewrite key_eqb_neq by (intros ->; apply H; left; reflexivity). rewrite IH; [lia|]. intros Hi. apply H. right. assumption. Qed.
+Lemma sum_ind ks a x : NoDup ks -> In a ks -> sumN (map (fun k => if key_eqb k a then x else 0) ks) = x.
+Proof.
+  induction ks as [|k tl IH]; cbn [map sumN]; intros Hnd Hi; [destruct Hi|]. inversion Hnd; subst.
+  destruct Hi as [->|Hi].
+  - rewrite key_eqb_refl, sum_ind_notin by assumption. lia.
+  - rewrite key_eqb_neq by (intros ->; contradiction). rewrite IH by assumption. lia.
+Qed.
+Lemma sum_balance ks (g f o i : key -> N) :
+  (forall k, In k ks -> g k + o k = f k + i k) ->
+  sumN (map g ks) + sumN (map o ks) = sumN (map f ks) + sumN (map i ks).
+Proof.
+  induction ks as [|k tl IH]; cbn [map sumN]; intros H; [reflexivity|].
+  pose proof (H k (or_introl eq_refl)). assert (IH' := IH (fun k' Hk => H k' (or_intror Hk))). lia.
+Qed.
+Lemma sumN_map_add ks (f g : key -> N) : sumN (map (fun k => f k + g k) ks) = sumN (map f ks) + sumN (map g ks).
+Proof. induction ks; cbn [map sumN]; lia. Qed.
+
+(* RequestAccess only moves lamports between the payer and the request account *)
+Lemma pp_request_access_conserves cx W mode W' ks :
+  pp_request_access cx W mode = Ok W' -> NoDup ks ->
+  In (nthk (cx_metas cx) 1) ks -> In (KPpRequest (access_mode_service mode)) ks -> total W' ks = total W ks.
+Proof.
+  intros H Hnd Hp Hr. apply pp_request_access_ok in H. cbn zeta in H.
+  destruct H as (m0 & m1 & m2 & rest & c & Hms & _ & _ & _ & _ & _ & _ & _ & _ & _ & _ & _ & _ & _ & Hle & _ & _ & Hpt).
+  rewrite (nthk_eq _ _ _ Hms), nthk_1 in Hp. remember (KPpRequest (access_mode_service mode)) as rk.
+  remember (shortfall W rk LEN_ACCESS_REQ (pc_deposit c)) as short. unfold total.
+  pose proof (sum_balance ks (fun k => lamports (get W' k)) (fun k => lamports (get W k))
+                (fun k => if key_eqb k (mkey m1) then short else 0) (fun k => if key_eqb k rk then short else 0)) as Hb.
+  cbv beta in Hb. rewrite !sum_ind in Hb by assumption. enough (HH : forall k, In k ks ->
+     lamports (get W' k) + (if key_eqb k (mkey m1) then short else 0) = lamports (get W k) + (if key_eqb k rk then short else 0)).
+  { specialize (Hb HH). lia. }
+  intros k _. destruct (Hpt k) as (_ & ->). case_key k (mkey m1); destruct (key_eqb _ rk); lia.
+Qed.
+
+(* GrantAccess: exact accounting; conservation whenever the remembered fee does not exceed the request account's balance *)
+Lemma pp_grant_access_accounting cx W W' ks :
+  pp_grant_access cx W = Ok W' -> NoDup ks ->
+  exists c r, is_pp_config W (nthk (cx_metas cx) 0) c /\ is_pp_request W (nthk (cx_metas cx) 2) r /\
+    (In (nthk (cx_metas cx) 2) ks -> In (pc_sentinel c) ks -> In (ar_beneficiary r) ks ->
+     total W' ks + lamports (get W (nthk (cx_metas cx) 2)) =
+     total W ks + ar_fee r + (lamports (get W (nthk (cx_metas cx) 2)) - ar_fee r)).
+Proof.
+  intros H Hnd. apply pp_grant_access_spec in H. cbn zeta in H. destruct H as (c & r & Hc & Hr & _ & _ & _ & Hpt).
+  exists c, r. split; [assumption|]. split; [assumption|]. intros H2 Hs Hb. remember (nthk (cx_metas cx) 2) as rk.
+  remember (lamports (get W rk)) as bal. unfold total.
+  pose proof (sum_balance ks (fun k => lamports (get W' k)) (fun k => lamports (get W k))
+                (fun k => if key_eqb k rk then bal else 0)
+                (fun k => (if key_eqb k (pc_sentinel c) then ar_fee r else 0) + (if key_eqb k (ar_beneficiary r) then bal - ar_fee r else 0))) as Hbal.
+  cbv beta in Hbal. rewrite sumN_map_add, !sum_ind in Hbal by assumption.
+  enough (HH : forall k, In k ks -> lamports (get W' k) + (if key_eqb k rk then bal else 0) = lamports (get W k) +
+     ((if key_eqb k (pc_sentinel c) then ar_fee r else 0) + (if key_eqb k (ar_beneficiary r) then bal - ar_fee r else 0))).
+  { specialize (Hbal HH). lia. }
+  intros k _. rewrite Hpt, set_lamports_lam. case_key k rk; [subst bal|]; lia.
+Qed.
+Lemma pp_grant_access_conserves cx W W' ks :
+  pp_grant_access cx W = Ok W' -> NoDup ks ->
+  exists c r, is_pp_config W (nthk (cx_metas cx) 0) c /\ is_pp_request W (nthk (cx_metas cx) 2) r /\
+    (In (nthk (cx_metas cx) 2) ks -> In (pc_sentinel c) ks -> In (ar_beneficiary r) ks ->
+     ar_fee r <= lamports (get W (nthk (cx_metas cx) 2)) -> total W' ks = total W ks).
+Proof.
+  intros H Hnd. destruct (pp_grant_access_accounting cx W W' ks H Hnd) as (c & r & Hc & Hr & Hacc).
+  exists c, r. split; [assumption|]. split; [assumption|]. intros H2 Hs Hb Hle. specialize (Hacc H2 Hs Hb). lia.
+Qed.
+Lemma pp_deny_access_conserves cx W W' ks :
+  pp_deny_access cx W = Ok W' -> NoDup ks ->
+  exists c, is_pp_config W (nthk (cx_metas cx) 0) c /\
+    (In (nthk (cx_metas cx) 2) ks -> In (pc_sentinel c) ks -> total W' ks = total W ks).
+Proof.
+  intros H Hnd. apply pp_deny_access_spec in H. cbn zeta in H. destruct H as (c & r & Hc & Hr & _ & _ & Hpt).
+  exists c. split; [assumption|]. intros H2 Hs. remember (nthk (cx_metas cx) 2) as rk.
+  remember (lamports (get W rk)) as bal. unfold total.
+  pose proof (sum_balance ks (fun k => lamports (get W' k)) (fun k => lamports (get W k))
+                (fun k => if key_eqb k rk then bal else 0) (fun k => if key_eqb k (pc_sentinel c) then bal else 0)) as Hbal.
+  cbv beta in Hbal. rewrite !sum_ind in Hbal by assumption.
+  enough (HH : forall k, In k ks -> lamports (get W' k) + (if key_eqb k rk then bal else 0) = lamports (get W k) +
+     (if key_eqb k (pc_sentinel c) then bal else 0)).
+  { specialize (Hbal HH). lia. }
+  intros k _. rewrite Hpt, set_lamports_lam. case_key k rk; [subst bal|]; lia.
+Qed.
+(* the configuration instructions do not move lamports at all *)
+Lemma pp_configure_program_lamports cx W s W' k : pp_configure_program cx W s = Ok W' -> lamports (get W' k) = lamports (get W k).
+Proof.
+  intros H. apply pp_configure_program_ok in H. destruct H as (m0 & m1 & rest & c & c' & _ & _ & _ & _ & _ & _ & _ & _ & ->).
+  rewrite get_put. case_key (mkey m0) k; [rewrite set_data_eq|]; reflexivity.
+Qed.
